@@ -22,6 +22,9 @@ pub struct Rw {
     pub closure_counter: usize,
     /// trait methods whose every impl in the repo has an empty body (checked by main on each run)
     pub noop_methods: HashSet<String>,
+    /// names of lock-guard bindings whose live range is monitored (R27)
+    pub guards: HashSet<String>,
+    pub live_guards: Vec<String>,
 }
 
 const LOG_MACROS: &[&str] = &["error", "warn", "info", "debug", "trace"];
@@ -122,6 +125,8 @@ impl Rw {
             unsupported: vec![],
             closure_counter: 0,
             noop_methods: HashSet::new(),
+            guards: HashSet::new(),
+            live_guards: Vec::new(),
         }
     }
 
@@ -312,7 +317,74 @@ impl VisitMut for Rw {
             }
         }
         b.stmts = keep;
+        // R27: the live range of a lock guard, made explicit.  Rust drops a local at the end of the block that declares
+        // it (after the block's tail expression has been evaluated); `drop(g)` ends it earlier.
+        let mut declared: Vec<String> = Vec::new();
+        if !self.guards.is_empty() {
+            let mut out: Vec<Stmt> = Vec::new();
+            for st in b.stmts.drain(..) {
+                let mut acquired: Option<String> = None;
+                if let Stmt::Local(l) = &st {
+                    if let Pat::Ident(pi) = &l.pat {
+                        let n = pi.ident.to_string();
+                        if self.guards.contains(&n) && l.init.as_ref().map_or(false, |i| i.expr.to_token_stream().to_string().contains("lock")) {
+                            acquired = Some(n);
+                        }
+                    }
+                }
+                let mut released: Option<String> = None;
+                if let Stmt::Expr(Expr::Call(c), Some(_)) = &st {
+                    if c.func.to_token_stream().to_string() == "drop" && c.args.len() == 1 {
+                        let a = c.args[0].to_token_stream().to_string();
+                        if self.guards.contains(&a) {
+                            released = Some(a);
+                        }
+                    }
+                }
+                // an await while a guard of this block (or an enclosing one) is live must be justified
+                let live: Vec<String> = self.live_guards.iter().chain(declared.iter()).cloned().collect();
+                if !live.is_empty() && stmt_has_foreign_await(&st) {
+                    for g in &live {
+                        let id = Ident::new(g, Span::call_site());
+                        out.push(parse_quote!(vx_await_check!(#id);));
+                    }
+                }
+                out.push(st);
+                if let Some(n) = acquired {
+                    let id = Ident::new(&n, Span::call_site());
+                    out.push(parse_quote!(vx_guard_acquired!(#id);));
+                    declared.push(n);
+                    self.log.push("R27 lock guard live range made explicit".into());
+                }
+                if let Some(n) = released {
+                    let id = Ident::new(&n, Span::call_site());
+                    out.push(parse_quote!(vx_guard_released!(#id);));
+                }
+            }
+            if !declared.is_empty() {
+                // release at the end of the declaring block, after the tail expression
+                if let Some(Stmt::Expr(_, None)) = out.last() {
+                    if let Some(Stmt::Expr(tail, None)) = out.pop() {
+                        out.push(parse_quote!(let __vx_tail = #tail;));
+                        for n in declared.iter().rev() {
+                            let id = Ident::new(n, Span::call_site());
+                            out.push(parse_quote!(vx_guard_released!(#id);));
+                        }
+                        out.push(Stmt::Expr(parse_quote!(__vx_tail), None));
+                    }
+                } else {
+                    for n in declared.iter().rev() {
+                        let id = Ident::new(n, Span::call_site());
+                        out.push(parse_quote!(vx_guard_released!(#id);));
+                    }
+                }
+            }
+            b.stmts = out;
+        }
+        let depth = self.live_guards.len();
+        self.live_guards.extend(declared.iter().cloned());
         visit_mut::visit_block_mut(self, b);
+        self.live_guards.truncate(depth);
     }
 
     fn visit_stmt_mut(&mut self, s: &mut Stmt) {
@@ -367,6 +439,9 @@ impl VisitMut for Rw {
             }
         }
         if let Expr::If(i) = e {
+            i.attrs.retain(|a| !a.path().is_ident("cfg"));
+        }
+        if let Expr::Block(i) = e {
             i.attrs.retain(|a| !a.path().is_ident("cfg"));
         }
         match e {
@@ -471,6 +546,18 @@ impl VisitMut for Rw {
                     self.check_log_args(&m.mac);
                     self.log.push(format!("R5 {name}! dropped (expression position)"));
                     Some(parse_quote!(()))
+                } else if name == "anyhow" {
+                    // anyhow!("literal") -> anyhow::anyhow_msg("literal") (an opaque error value)
+                    match m.mac.parse_body::<LitStr>() {
+                        Ok(l) => {
+                            self.log.push("R6 anyhow!(literal) -> opaque error value".into());
+                            Some(parse_quote!(anyhow::anyhow_msg(#l)))
+                        }
+                        Err(_) => {
+                            self.unsupported.push(format!("anyhow! with arguments: {}", m.mac.tokens));
+                            None
+                        }
+                    }
                 } else if name == "write" || name == "format" {
                     match self.rewrite_fmt(&m.mac, name == "write") {
                         Some(e) => Some(e),
@@ -667,6 +754,25 @@ impl Rw {
             prev = c;
         }
     }
+}
+
+/// does the statement itself (not a nested block, which is handled when that block is visited) await something other than
+/// another mutex?
+fn stmt_has_foreign_await(st: &Stmt) -> bool {
+    struct F(bool);
+    impl<'a> syn::visit::Visit<'a> for F {
+        fn visit_expr_await(&mut self, a: &'a ExprAwait) {
+            let s = a.base.to_token_stream().to_string();
+            if !s.trim_end().ends_with(". lock ()") {
+                self.0 = true;
+            }
+            syn::visit::visit_expr_await(self, a);
+        }
+        fn visit_block(&mut self, _b: &'a Block) {}
+    }
+    let mut f = F(false);
+    syn::visit::Visit::visit_stmt(&mut f, st);
+    f.0
 }
 
 fn is_iter_mut_call(e: &Expr) -> bool {
